@@ -7,33 +7,33 @@ Import ListNotations.
 (* focus_nodes = F: every shape is validated exactly on the nodes of F among its own targets.
    The checks carried out on other nodes on their behalf are the unrestricted ones: the
    evaluator (vshape) takes eopts, which does not contain the filter. *)
-Theorem C13_focus : forall trig o sg g E s, focus_filter o <> [] ->
-  validate_top trig o sg g E s None =
+Theorem C13_focus : forall trig W o sg g E s, focus_filter o <> [] ->
+  validate_top trig W o sg g E s None =
   (let kept := filter (fun f => is_iri f && tmem f (focus_filter o)) (focus_nodes sg g s) in
-   if isnil kept then Ok (true, []) else validate_top trig (no_filter o) sg g E s (Some kept)).
+   if isnil kept then Ok (true, []) else validate_top trig W (no_filter o) sg g E s (Some kept)).
 Proof. exact focus_filter_narrows. Qed.
 Print Assumptions C13_focus.
 
 (* use_shapes = U: the run equals the unrestricted run on the shapes graph in which every other
    shape has lost its target declarations (shapes visited in the order of the environment) -
    with every nested evaluation unchanged, because target declarations are invisible to it. *)
-Theorem C13_shapes : forall trig o sg g E U,
+Theorem C13_shapes : forall trig W o sg g E U,
   (forall s, In s E -> tmem (sid s) U = false -> implicit_class sg s = false) ->
   forall L nc acc, incl L E -> abort o && nc = false ->
-  run_shapes trig o sg g (map (keep_selected U) E) (map (keep_selected U) L) None nc acc
-  = run_shapes trig o sg g E (filter (fun s => tmem (sid s) U) L) None nc acc.
+  run_shapes trig W o sg g (map (keep_selected U) E) (map (keep_selected U) L) None nc acc
+  = run_shapes trig W o sg g E (filter (fun s => tmem (sid s) U) L) None nc acc.
 Proof. exact use_shapes_is_target_removal. Qed.
 Print Assumptions C13_shapes.
 
-Theorem C13_targets_invisible : forall trig h, same_but_targets h -> forall o g E fuel top ep s foci,
-  vshape trig fuel o g (map h E) top ep (h s) foci = vshape trig fuel o g E top ep s foci.
+Theorem C13_targets_invisible : forall trig W h, same_but_targets h -> forall o g E fuel top ep s foci,
+  vshape trig W fuel o g (map h E) top ep (h s) foci = vshape trig W fuel o g E top ep s foci.
 Proof. exact vshape_map. Qed.
 Print Assumptions C13_targets_invisible.
 
 (* both options: each shape of U is applied to each node of F irrespective of target declarations *)
-Theorem C13_both : forall trig o sg g E use shapes, use <> [] -> focus_filter o <> [] ->
+Theorem C13_both : forall trig W o sg g E use shapes, use <> [] -> focus_filter o <> [] ->
   lookup_selected E use = Ok shapes ->
-  validate_sel trig o sg g E use = run_shapes trig (no_filter o) sg g E shapes (Some (focus_filter o)) false [].
+  validate_sel trig W o sg g E use = run_shapes trig W (no_filter o) sg g E shapes (Some (focus_filter o)) false [].
 Proof. exact both_options. Qed.
 Print Assumptions C13_both.
 
@@ -48,7 +48,7 @@ Definition S : shape := {| sid := IRI 100; spath := None; deact := false; ssev :
    scomps := [CProperty [BN 1]] |}.
 Definition og := {| abort := false; allow_infos := false; allow_warnings := false; max_depth := 15; focus_filter := [IRI 1] |}.
 Example C13_nonvacuous :
-  validate_impl og [] [(IRI 1, IRI 50, IRI 2)] [S; P; N]
-  = Ok (false, [VR (IRI 1) (Some (IRI 2)) sh_NodeConstraintComponent (BN 1) t_Violation
-                   [VR (IRI 2) (Some (IRI 2)) sh_InConstraintComponent (IRI 101) t_Violation []]]).
+  validate_impl0 og [] [(IRI 1, IRI 50, IRI 2)] [S; P; N]
+  = Ok (false, [VR (IRI 1) (Some (IRI 2)) (Some (IRI 50)) sh_NodeConstraintComponent (BN 1) t_Violation
+                   [VR (IRI 2) (Some (IRI 2)) None sh_InConstraintComponent (IRI 101) t_Violation []]]).
 Proof. vm_compute. reflexivity. Qed.
